@@ -27,11 +27,13 @@ type ParkReader struct {
 	Data    []byte
 	Cuts    []int // sorted offsets at which the reader parks (0 < cut < len)
 	AbortAt int   // -1: none
-	Short   bool  // buggify: return at most 1..N bytes less than asked at cuts
-	pos     int
-	ci      int
-	closed  bool
-	Closes  int
+	// buggify (legal io.Reader behaviour that real bodies show):
+	EOFWithData bool // the final bytes are returned together with io.EOF
+	MaxRead     int  // >0: never return more than that many bytes per call
+	pos         int
+	ci          int
+	closed      bool
+	Closes      int
 }
 
 func NewParkReader(s *sim.Sim, data []byte, cuts []int, abortAt int) *ParkReader {
@@ -43,7 +45,7 @@ func NewParkReader(s *sim.Sim, data []byte, cuts []int, abortAt int) *ParkReader
 			cc = append(cc, x)
 		}
 	}
-	return &ParkReader{S: s, Data: data, Cuts: cc, AbortAt: abortAt}
+	return &ParkReader{S: s, Data: data, Cuts: cc, AbortAt: abortAt, EOFWithData: s.Knobs["rd.eof-with-data"] == 1, MaxRead: s.Knobs["rd.max-read"]}
 }
 
 func (r *ParkReader) Read(p []byte) (int, error) {
@@ -74,8 +76,14 @@ func (r *ParkReader) Read(p []byte) (int, error) {
 	if r.AbortAt >= 0 && r.AbortAt < end && r.AbortAt > r.pos {
 		end = r.AbortAt
 	}
+	if r.MaxRead > 0 && end-r.pos > r.MaxRead {
+		end = r.pos + r.MaxRead
+	}
 	n := copy(p, r.Data[r.pos:end])
 	r.pos += n
+	if r.EOFWithData && r.pos >= len(r.Data) && r.AbortAt < 0 {
+		return n, io.EOF
+	}
 	return n, nil
 }
 
